@@ -147,12 +147,13 @@ func (e *env) open() error {
 }
 
 // keyFor gives the content key handed to the store next to the id: the pebble store ignores it, the history
-// adapter routes on its first byte (all non-ephemeral block types must reach the same store).
+// adapter routes on its first byte (every selector but the ephemeral OFFER type 0x05 - the block types, the ephemeral
+// find-content type 0x04, unknown ones - must reach the same store, for Put and for Get alike).
 func (e *env) keyFor(id []byte) []byte {
 	if e.adapter != "history" {
 		return nil
 	}
-	return append([]byte{id[7] % 4}, id...)
+	return append([]byte{[]byte{0, 1, 2, 3, 4, 6, 0xff}[id[7]%7]}, id...)
 }
 
 func (e *env) close() {
@@ -353,12 +354,20 @@ func runSeq(w *tracelog.Writer, seed int64, traces, ops int, capM uint64, disk b
 			}
 			script = append(script, scripted{2, 1000}, scripted{90, 1000})
 		}
+		// scripted prefix (traces 3, 10, 17, ...): the usage figure EXACTLY at 95 % of the capacity when the store is reopened (the
+		// radius is re-derived only ABOVE it), then one byte more
+		if t%7 == 3 && e.capM == 1 {
+			script = append(script, scripted{1, 949968 - 32}, scripted{1, -2}, scripted{2, 0}, scripted{1, -2}, scripted{3, 1}, scripted{1, -2})
+		}
 		for step := 0; step < ops; step++ {
 			id := pool[rng.Intn(len(pool))]
 			k := rng.Intn(20)
 			forced := -1
 			if step < len(script) {
 				id, forced, k = pool[script[step].v-1], script[step].n, 10
+				if forced == -2 {
+					forced, k = -1, 4 // a scripted reopen
+				}
 			}
 			switch {
 			case k < 4:
